@@ -1,5 +1,6 @@
 import Pose.Wire
 import Pose.Model.Align
+import Pose.Model.Pnp
 /-!
 # Driver ops for C17 (svdtf / svdstf / ICP)
 
@@ -245,6 +246,23 @@ def opsC17 : List (String × Handler) := [
         let X : Sim3 B := ⟨v3 xs 0, qt xs 3, xs.getD 7 default⟩
         let ps := mkPairs xs n 8
         return fmt ([cost (Sim3Act X) ps] ++ (SO3matrix X.q).toList ++ [X.q.normSq])
+      | _ => throw "arity"),
+  -- c17.epnp_scale N bases(12) alpha(4N) points(3N) → bases'(12) scalep(3N) scale(1) minAbsZ(1)   (EPnP._compute_scale)
+  ("c17.epnp_scale", fun ts => do
+      match ts with
+      | n :: rest =>
+        let n ← nat n
+        let xs ← nums rest
+        if xs.length != 12 + 7 * n then throw "arity"
+        let c : Pnp.Ctrl B := ⟨v3 xs 0, v3 xs 3, v3 xs 6, v3 xs 9⟩
+        let alpha : List (Pnp.W4 B) := (List.range n).map fun i =>
+          ⟨xs.getD (12 + 4 * i) default, xs.getD (13 + 4 * i) default, xs.getD (14 + 4 * i) default, xs.getD (15 + 4 * i) default⟩
+        let pts := points xs n (12 + 4 * n)
+        let r := Pnp.computeScale c alpha pts
+        -- the sign decision `any(z < 0)`: report how close the decisive coordinates are to the threshold
+        let unsigned := alpha.map (Pnp.combine · r.1)
+        let minz := unsigned.foldl (fun m p => if BigF.lt (BigF.abs p.z) m then BigF.abs p.z else m) (BigF.ofNat 1000000000)
+        return fmt (r.1.toList ++ (r.2.1.flatMap Vec3.toList) ++ [r.2.2, minz])
       | _ => throw "arity"),
   -- c17.icp passes hasInit Ns Nt [t q] src(3Ns) tgt(3Nt)
   --   → t(3) q(4) margin(1) cond(1) errs(passes) sscd(passes+1) sscdResult(1)
